@@ -2,7 +2,7 @@
   C20b — the GLib machine (`Model/GMachine.lean`: `GLibEventLoop` over a GLib main context + scheduler + input pipeline).
 
   Property theorems only; vocabulary in `Spec/GMSpec.lean` (`G.Started`, `G.Reach`, `G.Trans`, `G.Steps`, `G.newTr`,
-  `G.AfterStart`, `G.Cfg.inDispatch`), helper lemmas in `Lemmas/GM*.lean` (`step_facts`: for every instruction of the
+  `G.AfterStart`), helper lemmas in `Lemmas/GM*.lean` (`step_facts`: for every instruction of the
   machine, where handler calls / batch collections / dispatch starts in the history and the handler-call and batch
   instructions in the pending code come from).
 
@@ -20,22 +20,37 @@ theorem C20b_force_quit_stays (P : Prog) (c c' : Cfg) (hA : AfterStart c) (hf : 
     (hs : Steps P c c') : AfterStart c' ∧ c'.L.forceQuit = true :=
   afterStart_fq_steps hA hf hs
 
-/-- **After `force_quit` no new dispatch calls a handler.**  Take a configuration after `run()` was entered in which
-force-quit is set.  In the rest of the execution every handler invocation (`Tr.call h d s` added to the history by any
-later transition, at any nesting depth) is for a signal `s` whose handler loop (`for handler in handlers` of
-`_run_handlers`) was already in progress in that configuration: signals still attached, in the rest of a running batch,
-or attached later never reach a handler.
+/-- **No handler after force-quit** (C09's clause, in the same form as `C09_force_quit_no_call_step` for `MainLoop`): out of a
+reachable configuration with force-quit set no transition adds a handler call to the history — whatever is attached,
+whatever batch is running, at any nesting depth, including the remaining handlers of the signal being dispatched and of
+every signal being dispatched at an outer nesting level (`_run_handlers` tests `_force_quit` before each handler call). -/
+theorem C20b_force_quit_silences_step (P : Prog) (c0 c c' : Cfg) (h0 : Started c0) (hr : Reach P c0 c)
+    (hf : c.L.forceQuit = true) (ht : Trans P c c') (h : HRef) (d : Option Nat) (s : Sig) :
+    Tr.m (.call h d s) ∉ newTr c c' := by
+  intro hm
+  have hl : c.code.head? = some (.callH h d s) := trans_loud ht _ hm rfl
+  have := (callInv_reach h0 hr h d s (head_mem hl)).2.2
+  rw [hf] at this; cases this
 
-This is weaker than C09's clause for `MainLoop` (`C09_force_quit_no_call`: no handler at all), and it has to be:
-`GLibEventLoop._run_handlers` tests `_force_quit` once, before the loop over the handlers, not between two handlers
-(the fix "do not call the remaining handlers of a signal after force_quit()" was made in `main_loop.py` only), so the
-remaining handlers of the signal being dispatched — and of every signal being dispatched at an outer nesting level —
-are still called; see `C20b_force_quit_remaining_handlers_run` below. -/
-theorem C20b_force_quit_silences (P : Prog) (c c1 c2 : Cfg) (hA : AfterStart c) (hf : c.L.forceQuit = true)
-    (hs : Steps P c c1) (ht : Trans P c1 c2) (h : HRef) (d : Option Nat) (s : Sig)
-    (hm : Tr.m (.call h d s) ∈ newTr c1 c2) : s ∈ c.inDispatch := by
-  have hl := trans_loud ht _ hm rfl
-  exact inDispatch_steps hA hf hs s (List.mem_filterMap.2 ⟨_, head_mem hl, rfl⟩)
+/-- **After `force_quit` no handler is ever called again.**  Take a reachable configuration, reached after `run()` was
+entered, in which force-quit is set.  Then no transition of the rest of the execution adds a handler call to the history
+(same statement as `C09_force_quit_no_call`). -/
+theorem C20b_force_quit_silences (P : Prog) (c0 c c1 c2 : Cfg) (h0 : Started c0) (hr : Reach P c0 c)
+    (hA : AfterStart c) (hf : c.L.forceQuit = true) (hs : Steps P c c1) (ht : Trans P c1 c2)
+    (h : HRef) (d : Option Nat) (s : Sig) : Tr.m (.call h d s) ∉ newTr c1 c2 :=
+  C20b_force_quit_silences_step P c0 c1 c2 h0 (reach_steps hr hs) (afterStart_fq_steps hA hf hs).2 ht h d s
+
+/-- The handler loop of `_run_handlers` leaves (`break`) at its next handler once force-quit is set; the rest of
+`_run_handlers` — destroying the source, marking the signal processed — is still pending behind it. -/
+theorem C20b_force_quit_breaks_handler_loop (P : Prog) (c : Cfg) (s : Sig) (hs : HList) (i : Nat) (rest : List Instr)
+    (hc : c.code = .gCall s hs i :: rest) (hf : c.L.forceQuit = true) :
+    step P c = .ok { c with code := rest, tr := .m (.dispatched s i) :: c.tr } := by
+  cases hs with
+  | live =>
+    simp only [step, hc, hf]
+    split <;> rfl
+  | kill => simp [step, hc, hf, Cfg.trace]
+  | empty => simp [step, hc, Cfg.trace]
 
 /-- In particular a dispatch that starts under force-quit runs no handler: `_run_handlers` goes straight to destroying
 the source and marking the signal processed. -/
@@ -65,18 +80,22 @@ def exFQ : Prog :=
 
 def exFQsig : Sig := { id := 7, cls := .user 0, prio := 0, src := .none }
 
-/-- **The remaining handlers of the signal being dispatched do run after `force_quit` on GLib** (kernel-checked run of
-the machine; the same program on the real `GLibEventLoop` behaves the same way — it is one of the validated cases): two
-handlers for one class, the first calls `force_quit()` (and enqueues another signal, which is dropped); the second
-handler is still invoked, after the force-quit; the run then returns.  Non-vacuity of `C20b_force_quit_silences`, and the
-reason why it cannot be stated as for `MainLoop`. -/
-theorem C20b_force_quit_remaining_handlers_run :
+/-- **The remaining handlers of the signal being dispatched do not run after `force_quit`** (kernel-checked run of the
+machine; the same program behaves the same way on the repaired `GLibEventLoop` — the family `fqh` of the validation): two
+handlers for one class, the first calls `force_quit()` (and enqueues another signal, which is dropped); the second handler
+is *not* invoked: after the force-quit the history contains no call at all; the source is still destroyed and the run
+returns.  (Before the repair of `_run_handlers` — the force-quit test was made once, in front of the loop — handler 1 was
+called: this example was the counterexample `C20b_force_quit_remaining_handlers_run`.)  Non-vacuity of
+`C20b_force_quit_silences`. -/
+theorem C20b_force_quit_remaining_handlers_skipped :
     let r := runFuel exFQ 100 (initCfg [.enq (.user 0) 0 .none 7] [(.user 0, .user 0, none), (.user 0, .user 1, none)] none [])
     r.2 = .returned ∧ r.1.L.forceQuit = true ∧
-    -- events newer than the force-quit: the call of handler 1 for signal 7 is among them; signal 8 was dropped
-    (r.1.tr.takeWhile fun t => t != .m .forceQuit).contains (.m (.call (.user 1) none exFQsig)) = true ∧
+    -- events newer than the force-quit: no handler call among them; the dispatch of signal 7 ended after one handler
+    ((r.1.tr.takeWhile fun t => t != .m .forceQuit).all fun t => match t with | .m (.call ..) => false | _ => true) = true ∧
+    Tr.m (.dispatched exFQsig 1) ∈ r.1.tr ∧ Tr.destroy 0 0 ∈ r.1.tr ∧
+    Tr.m (.call (.user 0) none exFQsig) ∈ r.1.tr ∧
     Tr.m (.dropped { id := 8, cls := .user 0, prio := 0, src := .none }) ∈ r.1.tr ∧
-    r.1.log.reverse = [.h 0 7 none 1, .hret 0, .h 1 7 none 1, .hret 1] := by
+    r.1.log.reverse = [.h 0 7 none 1, .hret 0] := by
   decide +kernel
 
 /-! ### 2. only registered handlers, with their registration data; which list is used (C02's clause) -/
@@ -99,7 +118,8 @@ theorem C20b_call_from_live_list (P : Prog) (c c' : Cfg) (ht : Trans P c c') (h 
   rcases trans_cases ht with sf | ⟨hc, _⟩
   · rcases sf.code _ hm rfl with h1 | h1
     · exact absurd (List.mem_of_mem_tail h1) hn
-    · exact h1.1
+    · obtain ⟨⟨k, hk, hl, _⟩, _⟩ := h1
+      exact ⟨k, hk, hl⟩
   · rw [hc] at hm; exact absurd hm hn
 
 /-- **The snapshot at enqueue**: which list a source carries is decided when the signal is enqueued (`hlistFor`): the
@@ -118,11 +138,12 @@ theorem C20b_snapshot_at_enqueue (c c' : Cfg) (s : Sig) (hf : c.L.forceQuit = fa
     exact ⟨q, hq, rfl, rfl⟩
 
 /-- … and a source with the empty snapshot never calls anything, whatever was registered in the meantime; the one with
-the `kill` snapshot calls `kill_app_with_traceback` once. -/
+the `kill` snapshot calls `kill_app_with_traceback` once (unless force-quit is set). -/
 theorem C20b_snapshot_fixed (P : Prog) (c : Cfg) (s : Sig) (i : Nat) (rest : List Instr) :
     (c.code = .gCall s .empty i :: rest → step P c = .ok { c with code := rest, tr := .m (.dispatched s i) :: c.tr }) ∧
-    (c.code = .gCall s .kill 0 :: rest → step P c = .ok { c with code := .kill s :: .gCall s .kill 1 :: rest }) := by
-  refine ⟨fun hc => by simp [step, hc, Cfg.trace], fun hc => by simp [step, hc, push]⟩
+    (c.code = .gCall s .kill 0 :: rest → c.L.forceQuit = false →
+      step P c = .ok { c with code := .kill s :: .gCall s .kill 1 :: rest }) := by
+  refine ⟨fun hc => by simp [step, hc, Cfg.trace], fun hc hf => by simp [step, hc, hf, push]⟩
 
 /-- non-vacuity: a signal of a class nobody handles is attached with the empty snapshot and dispatched without any call;
 an `ExceptionSignal` nobody handles kills the application (exit status 1) -/
@@ -171,9 +192,13 @@ theorem C20b_batch_one_priority (P : Prog) (c0 c c' : Cfg) (h0 : Started c0) (hr
       theorem C20b_batch_in_attach_order … (h1 : Tr.disp q e g1 ∈ c.tr is older than Tr.disp q e g2 ∈ c.tr) :
           g1 occurs before g2 in `batch`
 
-  needs one more invariant (for every `(q, e)`: the sources already dispatched or skipped, followed by the pending
-  `gDisp q e _` instructions in code order, are `batch`), which was not done in the time available.  The concrete order is
-  exhibited on the example below.
+  needs two more invariants, which were not done in the time available: (a) for every collection `iter q e p att batch` in
+  the history, the sources of the `disp q e _` events so far (oldest first) followed by the pending `gDisp q e _`
+  instructions in code order form a sub-sequence of `batch` (a sub-sequence, not all of it: skipped turns and turns dropped
+  by an exception that unwinds through the batch loop are missing); (b) iteration identities are fresh — every `iter q e …`,
+  `disp q e _` and pending `gDisp q e _` has `e ≤ epoch(q)`, and no helper ever lowers an epoch — so that a later collection
+  cannot reuse `(q, e)`; (b) needs an epoch clause in the frame relation `Keep` of `Lemmas/GMFrame.lean` and a lemma about
+  `List.modify`/`getD` for `setCtx`.  The concrete order is exhibited on the example below.
 
   NOT DONE: `C20b_same_scheduler` (priority 4) and the simulation theorem (priority 5).  The scheduler / input / callback
   instructions of `Model/GMachine.lean` are textual copies of `Model/Machine.lean`'s with three systematic differences, which
